@@ -125,17 +125,15 @@ Theorem C04_decode_canonical_partial : forall e m' t,
 Proof. exact decode_canonical_on_encodings. Qed.
 Print Assumptions C04_decode_canonical_partial.
 
-(* decode_canonical — FULL statement, FALSE on the present tree:
-     forall e b m, decode_max e b = OOk m -> encode (d_ke e) m = b.
-   Refuted by the model (witness: and_v(v:multi_a(1,A,B),pk(A)) with 9d replaced by 9c 69);
-   the same witness class is re-found on the implementation by every run of the check. *)
-Theorem C04_decode_canonical_refuted :
-  exists (e : denv) (b : bytes) (m : ms),
-    (forall k, k < 2 -> d_key e (kb (d_ke e) k) = Some k) /\
-    decode_max e b = OOk m /\ encode (d_ke e) m <> b /\
-    decode_max e (encode (d_ke e) m) = OOk m.
-Proof. exact decode_canonical_refuted_lemma. Qed.
-Print Assumptions C04_decode_canonical_refuted.
+(* The former refutation of decode_canonical (until /repo 22fc180a: NUMEQUAL VERIFY lexed like
+   NUMEQUALVERIFY) is now a regression example: the split script is refused by the lexer, the
+   canonical one decodes. *)
+Theorem C04_numequal_split_rejected :
+  (forall k, k < 2 -> d_key wit_env (kb (d_ke wit_env) k) = Some k) /\
+  decode_max wit_env wit_bytes = OErr (DeLex LeNonMinimalVerify) /\
+  decode_max wit_env (encode wit_ke wit_ms) = OOk wit_ms /\ encode wit_ke wit_ms <> wit_bytes.
+Proof. exact numequal_split_rejected_lemma. Qed.
+Print Assumptions C04_numequal_split_rejected.
 
 (* non-vacuity: the hypotheses of the theorems above are satisfiable (the witness is well formed) *)
 Example C04_hypotheses_satisfiable : ms_wf Tap wit_ke wit_ms /\ ksort_ok wit_ke.
